@@ -129,6 +129,10 @@ func (p *Parser) parseNotationInComments(notations []*ast.Comment, validOps map[
 				return logger.Errorf("%v: needs <dst> <literal> args", p.fset.Position(n.Pos()))
 			}
 			m = reLiteral.FindStringSubmatch(m[2])
+			if m == nil {
+				// the arguments are separated by white space that the pattern does not know (e.g. U+00A0).
+				return logger.Errorf("%v: needs <dst> <literal> args", p.fset.Position(n.Pos()))
+			}
 			setter := option.NewLiteralSetter(args[0], m[1], n.Pos())
 			opts.Literals = append(opts.Literals, setter)
 		case "preprocess":
